@@ -346,6 +346,10 @@ Proof. exact interp_get_indices_correct. Qed.
 Corollary C03_default_get_indices : forall (K : Z -> Z -> Z) r c, interp_get_indices K [r] [1] [c] [1] = K r c.
 Proof. exact default_get_indices_correct. Qed.
 
+(* DiagLinearOperator._get_indices: diag[row] * (row == col) is the entry of the diagonal matrix *)
+Theorem C03_diag : forall (d : Z -> Z) r c, diag_get_indices d r c = if r =? c then d r else 0.
+Proof. exact diag_get_indices_correct. Qed.
+
 (* InterpolatedLinearOperator._diagonal over a RootLinearOperator with dense root R: the shortcut
    (left_interp(W_l, R) * left_interp(W_r, R)).sum(-1) is the interpolated entry of K = R R^T (RootLinearOperator._get_indices)
    taken with the LEFT points for the row and the RIGHT points for the column *)
